@@ -154,6 +154,7 @@ number(struct scanner *s)
 		case '-':
 			if (!allowsign)
 				goto done;
+			allowsign = false;
 			break;
 		case '_':
 		case '.':
